@@ -1534,6 +1534,13 @@ func TestVerif_C07(t *testing.T) {
 			r.Count("cases_cut_by_timing_ambiguity", 1)
 		}
 		if res.Inconcl != "" {
+			if !sys.Running() {
+				// the actor system stopped by itself between two cases (same shape as
+				// the in-case verdict: the death watch failed and the guardian shut
+				// the system down); nothing more can be judged in this batch
+				r.Violation("system:stopped-while-supervising-user-actors", map[string]any{"case": i, "observed": res.Inconcl, "log_tail": ring.tail()})
+				break
+			}
 			r.Inconclusive("case %d: %s", i, res.Inconcl)
 		}
 		for _, sv := range res.Soft {
